@@ -170,6 +170,9 @@ def gen_case(rng, thorough):
         # the same topology spread over include files in a sub-directory, with a look-alike file in the
         # working directory (see write_top); what is expanded and written must not change
         case["layout"] = "include-nested"
+    elif rng.random() < 0.15:
+        case["layout"] = "include-ifdef"
+        case["ifdef"] = dict(cond=rng.choice(["ifdef", "ifndef"]), defined=rng.random() < 0.5)
     return case
 
 
@@ -299,6 +302,22 @@ def write_top(path, case):
             for t in case["types"]:
                 out.write("[ moleculetype ]\n%s 1\n[ atoms ]\n1 CA 1 DECOY D1 1 0.0 12.0\n" % t["name"])
         mol_path = os.path.join(base, "ff", "mols.itp")
+        include_text = '#include "ff/main.itp"\n'
+    elif layout == "include-ifdef":
+        # the flexible/rigid idiom: `#ifdef X / #include "a.itp" / #else / #include "b.itp" / #endif` (or #ifndef)
+        # at the top level, X defined or not; both files define the same molecule types, the file of the ACTIVE
+        # branch has the real definitions, the other one a one-atom decoy
+        base = os.path.dirname(path)
+        os.makedirs(os.path.join(base, "ff"), exist_ok=True)
+        cond, defined = case["ifdef"]["cond"], case["ifdef"]["defined"]
+        first_active = defined if cond == "ifdef" else not defined
+        active, inactive = ("a.itp", "b.itp") if first_active else ("b.itp", "a.itp")
+        with open(os.path.join(base, "ff", inactive), "w") as out:
+            for t in case["types"]:
+                out.write("[ moleculetype ]\n%s 1\n[ atoms ]\n1 CA 1 DECOY D1 1 0.0 12.0\n" % t["name"])
+        mol_path = os.path.join(base, "ff", active)
+        include_text = ("#define VARIANT\n" if defined else "") + \
+            '#%s VARIANT\n#include "ff/a.itp"\n#else\n#include "ff/b.itp"\n#endif\n' % cond
     else:
         mol_path = None
     with open(path, "w") as top_out:
@@ -306,7 +325,7 @@ def write_top(path, case):
         for atype, mass in MASSES.items():
             top_out.write("%s %g 0.0 %s 0.0026 2.6e-06\n" % (atype, mass, "V" if atype == "VS" else "A"))
         if mol_path is not None:
-            top_out.write('#include "ff/main.itp"\n')
+            top_out.write(include_text)
         out = open(mol_path, "w") if mol_path is not None else top_out
         for t in case["types"]:
             out.write("[ moleculetype ]\n%s 1\n[ atoms ]\n" % t["name"])
